@@ -490,7 +490,16 @@ class WebsocketSession(object):
                 if readable:
                     data = self._recv(max_bytes)
                     if data:
+                        held_back = False
                         for event in websocket.feed(data, state):
+                            if held_back:
+                                # What was skipped after the closing
+                                # event, now that the close is answered
+                                # (where the read ends makes no difference
+                                # to what comes before the next event)
+                                held_back = False
+                                for _event in _regular(timeouts=False):
+                                    yield _event
                             self._on_event(event, auto_pong)
                             yield event
                             if event.name in (
@@ -501,9 +510,10 @@ class WebsocketSession(object):
                                 # resumed; no poll, ping or timeout in
                                 # between, however long the event was
                                 # handled.
+                                held_back = event.name == 'closing'
                                 continue
-                            for event in _regular(timeouts=False):
-                                yield event
+                            for _event in _regular(timeouts=False):
+                                yield _event
                         if not state.closed:
                             for event in _regular():
                                 yield event
